@@ -215,21 +215,12 @@ def exS : SStream where
     rcases exAt_seg h with ⟨rfl, rfl⟩ | ⟨rfl, rfl⟩
     · exact ⟨sf1, rfl, rfl, rfl, rfl, rfl, rfl⟩
     · simp [sf1] at hk
-  prev := by
-    intro i f h hk
-    rcases exAt_seg h with ⟨rfl, rfl⟩ | ⟨rfl, rfl⟩
-    · simp [sf0] at hk
-    · exact ⟨1, sf0, rfl, rfl, rfl, rfl, rfl⟩
   kn := by
     intro i f h
     rcases exAt_seg h with ⟨rfl, rfl⟩ | ⟨rfl, rfl⟩ <;> decide
   hdrOk := by
     intro i f h
     rcases exAt_seg h with ⟨rfl, rfl⟩ | ⟨rfl, rfl⟩ <;> decide
-  uidInj := by
-    intro i j f g hf hg _ hk
-    rcases exAt_seg hf with ⟨rfl, rfl⟩ | ⟨rfl, rfl⟩ <;>
-      rcases exAt_seg hg with ⟨rfl, rfl⟩ | ⟨rfl, rfl⟩ <;> first | rfl | (simp [sf0, sf1] at hk)
 
 /-- arrived copies: the frame of unsegmented messages, clean copies of both segments, and a copy
     of the second segment whose version was corrupted to 9 -/
